@@ -182,6 +182,17 @@ def run_case(case):
                 spec = dict(integrator=integ, system=sysd, opts=opts, dt=gen.inner_period(sysd) / r.choice([17.3, 25.1, 40.7, 100.0]) * r.choice([1, -1]))
                 sim = gen.build_sim(spec)
                 desc = '%s opts %r' % (integ, opts)
+                if sim.N >= 3 and r.random() < 0.4:
+                    # the outer bodies as test particles of either type (type 1 = semi-active: they act on the active bodies), with and without mass:
+                    # the maps stay time-symmetric, whichever positions the forces of the inner stages are evaluated at
+                    kt_ = r.randint(1, sim.N - 2)
+                    sim.N_active = sim.N - kt_
+                    sim.testparticle_type = r.choice([0, 1])
+                    if r.random() < 0.3:
+                        for j_ in range(sim.N_active, sim.N):
+                            sim.particles[j_].m = 0.0
+                    desc += ' N_active=%d of %d, testparticle_type=%d' % (sim.N_active, sim.N, sim.testparticle_type)
+                    counters['symmetric_roundtrips_with_test_particles'] = counters.get('symmetric_roundtrips_with_test_particles', 0) + 1
             s0 = [(p.x, p.y, p.z, p.vx, p.vy, p.vz) for p in sim.particles]
             n = r.choice([1, 2, 5, 20, 100, 400]) if not locals().get('flyby') else r.choice([1, 2, 5, 25])
             sim.steps(n)
